@@ -541,7 +541,10 @@ def run(ctx: Ctx) -> int:
         f = ctx.scratch / "traces.json"
         f.write_text(json.dumps([{"W": t["W"], "V": t["V"], "ev": t["ev"]} for t in trs]))
         rr = ctx.tlc("ExitStatus", exit_cfg("file", "{}", "{}", False), workers=1, env={"TRACE_FILE": str(f)},
-                     check=True, timeout=900, count=count)
+                     check=False, timeout=900, count=count, extra=["-continue"])
+        hard = [e for e in rr.errors if "behavior up to this point" not in e]
+        if hard or (rr.rc != 0 and not rr.violated):
+            raise MachineryError(f"ExitStatus(file): TLC failed rc={rr.rc} {hard[:3]}\n" + "\n".join(rr.out.splitlines()[-20:]))
         acc = [v for v in rr.printed if "accepted" in v]
         if len(acc) != 1:
             raise MachineryError("ExitStatus(file): no acceptance record\n" + "\n".join(rr.out.splitlines()[-20:]))
